@@ -8,6 +8,7 @@ import (
 	"log/slog"
 	"net/http"
 	"net/http/httptest"
+	"os"
 	"slices"
 	"strconv"
 	"strings"
@@ -27,10 +28,47 @@ import (
 type collector struct {
 	mu    sync.Mutex
 	recs  []logRec
-	raddr map[int]string   // RemoteAddr the inner handler saw, per request id
-	runs  map[int]int      // inner handler invocations per request id
-	bad   map[int][]string // problems seen by the inner handler
+	raddr map[int]string        // RemoteAddr the inner handler saw, per request id
+	runs  map[int]int           // inner handler invocations per request id
+	bad   map[int][]string      // problems seen by the inner handler
+	done  map[int]chan struct{} // closed when the server-side invocation of the request has returned COMPLETELY
 }
+
+// expect registers a request before it is sent.
+func (c *collector) expect(rid int) chan struct{} {
+	ch := make(chan struct{})
+	c.mu.Lock()
+	c.done[rid] = ch
+	c.mu.Unlock()
+	return ch
+}
+
+// completion wraps the whole server-side chain (foreign middlewares,
+// LogMiddleware, inner handler): the request's channel is closed only after
+// everything - including the middleware's deferred "finished" record and
+// Puts - has returned.  What the client has received says nothing about that:
+// a hijacking handler answers on the raw connection long before it returns,
+// and a flushed response is on the wire while the handler is still running.
+func (c *collector) completion(next http.Handler) http.Handler {
+	return http.HandlerFunc(func(w http.ResponseWriter, r *http.Request) {
+		rid := ridOf(r.Header.Get("X-Rid"))
+		defer func() {
+			c.mu.Lock()
+			ch := c.done[rid]
+			delete(c.done, rid)
+			c.mu.Unlock()
+			if ch != nil {
+				close(ch)
+			}
+		}()
+		next.ServeHTTP(w, r)
+	})
+}
+
+// serverPatience is how long a client waits for the server side of its own
+// request to return after it has the response; running out of it is a
+// problem of the harness or the machine, never a verdict.
+const serverPatience = 120 * time.Second
 
 func (c *collector) add(r logRec) {
 	c.mu.Lock()
@@ -93,6 +131,12 @@ func (e *env) lbInner() http.Handler {
 				// the handler owns the connection: it answers by hand
 				_, _ = fmt.Fprintf(conn, "HTTP/1.1 299 Hijacked\r\nX-Rid: %d\r\nContent-Length: %d\r\nConnection: close\r\n\r\n%s", rid, len(data), data)
 				_ = conn.Close()
+				// Self-test of the binding: the client has its answer now; make the
+				// rest of the server side (bookkeeping below, the middleware's
+				// finished record) demonstrably late.
+				if ms, _ := strconv.Atoi(os.Getenv("C20_LB_DELAY_MS")); ms > 0 {
+					time.Sleep(time.Duration(ms) * time.Millisecond)
+				}
 			default:
 				var err error
 				switch o.Op {
@@ -158,20 +202,21 @@ func effectiveOps(ops []op, chain []string) []op {
 // a net/http server whose handler is mw.Wrap(inner).  It returns the number
 // of requests, or a reason why the run was skipped (no network in the
 // sandbox is not an error of the code under test).
-func runLoopback(res *vh.Result, clients, reqs int) (n int, skipped string) {
-	e := &env{retain: true, col: &collector{raddr: map[int]string{}, runs: map[int]int{}, bad: map[int][]string{}}}
+func runLoopback(res *vh.Result, clients, reqs int) (n int, skipped string, err error) {
+	e := &env{retain: true, col: &collector{raddr: map[int]string{}, runs: map[int]int{}, bad: map[int][]string{},
+		done: map[int]chan struct{}{}}}
 	mw := e.newMw()
 	// one server per chain of foreign middlewares, all through the SAME LogMiddleware:
 	// httputil.Wrap(inner, foreign..., mw)
 	srvs := make([]*httptest.Server, len(loopbackChains))
 	if pv, panicked := vh.Try(func() {
 		for i, chain := range loopbackChains {
-			srvs[i] = httptest.NewUnstartedServer(throughUp(chain, []*httputil.LogMiddleware{mw}, []int{1}, e.lbInner()))
+			srvs[i] = httptest.NewUnstartedServer(e.col.completion(throughUp(chain, []*httputil.LogMiddleware{mw}, []int{1}, e.lbInner())))
 			srvs[i].Config.ErrorLog = log.New(io.Discard, "", 0)
 			srvs[i].Start()
 		}
 	}); panicked {
-		return 0, fmt.Sprint(pv)
+		return 0, fmt.Sprint(pv), nil
 	}
 	defer func() {
 		for _, s := range srvs {
@@ -184,7 +229,7 @@ func runLoopback(res *vh.Result, clients, reqs int) (n int, skipped string) {
 	}
 	all := make([][]sent, clients)
 	var wg sync.WaitGroup
-	var netErr string
+	var netErr, lateErr string
 	var netMu sync.Mutex
 	for ci := 0; ci < clients; ci++ {
 		wg.Add(1)
@@ -226,6 +271,7 @@ func runLoopback(res *vh.Result, clients, reqs int) (n int, skipped string) {
 				}
 				req.Header.Set("X-Beh", strconv.Itoa(beh))
 				req.Header.Set("X-Up", strconv.Itoa(up))
+				serverDone := e.col.expect(rid)
 				resp, err := cl.Do(req)
 				if err != nil {
 					netMu.Lock()
@@ -235,6 +281,16 @@ func runLoopback(res *vh.Result, clients, reqs int) (n int, skipped string) {
 				}
 				body, _ := io.ReadAll(resp.Body)
 				resp.Body.Close()
+				// The response is here; the request is judged only once its
+				// server-side invocation has returned through the LogMiddleware.
+				select {
+				case <-serverDone:
+				case <-time.After(serverPatience):
+					netMu.Lock()
+					lateErr = fmt.Sprintf("the server side of a request did not return within %s after its response was received", serverPatience)
+					netMu.Unlock()
+					return
+				}
 				var made []call
 				want := ""
 				wantStatus := 0
@@ -265,8 +321,11 @@ func runLoopback(res *vh.Result, clients, reqs int) (n int, skipped string) {
 		}()
 	}
 	wg.Wait()
+	if lateErr != "" {
+		return 0, "", fmt.Errorf("loopback: %s", lateErr)
+	}
 	if netErr != "" {
-		return 0, "network: " + netErr
+		return 0, "network: " + netErr, nil
 	}
 	// server side, per request id
 	c := e.col
@@ -321,10 +380,10 @@ func runLoopback(res *vh.Result, clients, reqs int) (n int, skipped string) {
 				pr = append(pr, fmt.Sprintf("request %d: %d started, %d finished, %d probe records carry its request_uri (want one each)", s.rid, nS, nF, nP))
 			}
 			if len(pr) > 0 {
-				res.Mismatch(fmt.Sprintf("LogMiddleware behind a loopback net/http server (VERIF_SEED=%d): request %d, handler does %s",
-					vh.Seed(), s.rid, opsKey(ops)), pr[0], map[string]any{"problems": pr})
+				res.Mismatch(fmt.Sprintf("LogMiddleware behind a loopback net/http server and foreign wrappers %v: handler does %s",
+					loopbackChains[s.up], opsKey(ops)), pr[0], map[string]any{"problems": pr, "request": s.rid, "seed": vh.Seed()})
 			}
 		}
 	}
-	return n, ""
+	return n, "", nil
 }
